@@ -158,10 +158,12 @@ def tags_of(beh):
                         moved = False                       # commits on the first branch, switch, pick onto the second
                     else:
                         moved = any(br[0] < i < sw[0] for i in commits_at) if len(sw) % 2 == 0 else True
-                    t.add("pickmany:skipped-%s-%s:%s:%s" % (
+                    first = edits_of.get(a["cs"][0], [])
+                    t.add("pickmany:skipped-%s-%s:%s:%s:first-%s" % (
                         "h" if skipped[-1]["who"] == "H" else "A", "h" if second[-1]["who"] == "H" else "A",
                         "above" if newpos(skipped[-1]) <= newpos(second[-1]) else "below",
-                        "target-moved" if moved else "target-at-fork"))
+                        "target-moved" if moved else "target-at-fork",
+                        "A" if any(e["who"] != "H" for e in first) else "h"))
     if any(a["a"] in ("CherryPickMany", "IRebase", "Rebase", "CherryPick") for a in beh):
         # ordered signature of who inserted where (top / middle / bottom), one entry per edit
         sig = []
